@@ -187,8 +187,14 @@ def ctor_fields(p):
                 m = pm.match('p[_I]', kw.value)
                 if m and isinstance(m['_I'], ast.Constant):
                     out.append((cls, kw.arg, m['_I'].value))
-            if st.value.args:
-                out.append((cls, '*positional*', None))
+            sig = (pm.SIGNATURES or {}).get(cls)
+            for k, a in enumerate(st.value.args):
+                m = pm.match('p[_I]', a)
+                if sig is not None and k < len(sig):
+                    if m and isinstance(m['_I'], ast.Constant):
+                        out.append((cls, sig[k], m['_I'].value))
+                else:
+                    out.append((cls, '*positional*', None))
     return out
 
 
@@ -211,6 +217,50 @@ def keyword_fields(ctx, g):
                 out.setdefault((cls, field), set()).update(terms & kws)
     # positional constructor calls (e.g. ElseNode(p[2])) never carry keywords today; make sure
     return out
+
+
+def tree_types(g):
+    '''(sym -> node classes its productions may yield, (NodeClass, field) -> node classes the field may hold), from the actions'''
+    sym_classes = {}
+    units = {}
+    for p in g.productions:
+        reclass = {}
+        for node, env in pm.find('p[_I].__class__ = _C', p.fn):
+            if isinstance(env['_I'], ast.Constant):
+                reclass[env['_I'].value] = src(env['_C'])
+        for st in ast.walk(p.fn):
+            if isinstance(st, ast.Assign) and pm.match('p[0]', st.targets[0]) is not None:
+                v = st.value
+                if isinstance(v, ast.Call) and dotted(v.func):
+                    sym_classes.setdefault(p.head, set()).add(dotted(v.func))
+                else:
+                    m = pm.match('p[_I]', v)
+                    if m and isinstance(m['_I'], ast.Constant) and 0 < m['_I'].value <= len(p.syms):
+                        if m['_I'].value in reclass:
+                            sym_classes.setdefault(p.head, set()).add(reclass[m['_I'].value])
+                        else:
+                            units.setdefault(p.head, set()).add(p.syms[m['_I'].value - 1])
+    changed = True
+    while changed:
+        changed = False
+        for h, ss in units.items():
+            for s_ in ss:
+                new = sym_classes.get(s_, set()) - sym_classes.get(h, set())
+                if new:
+                    sym_classes.setdefault(h, set()).update(new)
+                    changed = True
+    field_classes = {}
+    for p in g.productions:
+        reclass = {}
+        for node, env in pm.find('p[_I].__class__ = _C', p.fn):
+            if isinstance(env['_I'], ast.Constant):
+                reclass[env['_I'].value] = src(env['_C'])
+        for cls, field, pos in ctor_fields(p):
+            if pos is None or pos - 1 >= len(p.syms):
+                continue
+            got = {reclass[pos]} if pos in reclass else sym_classes.get(p.syms[pos - 1], set())
+            field_classes.setdefault((cls, field), set()).update(got)
+    return sym_classes, field_classes
 
 
 def _subclasses(repo, name):
@@ -242,6 +292,16 @@ def taint(ctx, g, sources):
             for m in c.body:
                 if isinstance(m, ast.FunctionDef) and m.name != '__init__':
                     _scan(r, m, 'self', by_class[c.name], 'bridgepoint.oal:%s.%s' % (c.name, m.name))
+    # child slots: node.<a>.<f> where slot a of the handled class may hold a node whose field f carries a keyword
+    sym_classes, field_classes = tree_types(g)
+    ctx.extra['typed_child_slots'] = len(field_classes)
+    nested_by_class = {}
+    for (cls, a), held in field_classes.items():
+        for h in held:
+            for hc in _subclasses(repo, h):
+                for f, terms in by_class.get(hc, {}).items():
+                    for c in _subclasses(repo, cls):
+                        nested_by_class.setdefault(c, {}).setdefault((a, f), set()).update(terms)
     # walker handlers
     for modname in ('bridgepoint.interpret', 'bridgepoint.prebuild'):
         for c in repo.classes(modname):
@@ -252,30 +312,47 @@ def taint(ctx, g, sources):
                 if not ps:
                     continue
                 node_classes = []
-                if m.name.startswith('accept_') and m.name[7:] in by_class:
+                if m.name.startswith('accept_') and (m.name[7:] in by_class or m.name[7:] in nested_by_class):
                     node_classes = [m.name[7:]]
                 elif ps[0] == 'node' and not m.name.startswith('accept_'):
                     # helper taking a node (act_sel, v_val, ...): the node may be of any class -> union of all fields
                     node_classes = list(by_class)
                 fields = {}
                 for nc in node_classes:
-                    for f, t in by_class[nc].items():
+                    for f, t in by_class.get(nc, {}).items():
                         fields.setdefault(f, set()).update(t)
-                if fields:
-                    _scan(r, m, ps[0], fields, '%s:%s.%s' % (modname, c.name, m.name))
+                nested = {}
+                for nc in (node_classes if m.name.startswith('accept_') else []):
+                    for k, t in nested_by_class.get(nc, {}).items():
+                        nested.setdefault(k, set()).update(t)
+                if fields or nested:
+                    _scan(r, m, ps[0], fields, '%s:%s.%s' % (modname, c.name, m.name), nested)
 
 
-def _scan(r, fn, nodevar, fields, qual):
+def _scan(r, fn, nodevar, fields, qual, nested=None):
     '''find reads of nodevar.<field> for keyword-carrying fields and follow them to sinks'''
     tainted_vars = {}
+    nested = nested or {}
+    if nested:
+        fields = dict(fields)
+        for (a, f), t in nested.items():
+            fields['%s.%s' % (a, f)] = t
 
     def is_source(e):
         return isinstance(e, ast.Attribute) and isinstance(e.value, ast.Name) and e.value.id == nodevar and e.attr in fields
+
+    def nested_source(e):
+        if isinstance(e, ast.Attribute) and isinstance(e.value, ast.Attribute) and isinstance(e.value.value, ast.Name) and \
+                e.value.value.id == nodevar and (e.value.attr, e.attr) in nested:
+            return '%s.%s' % (e.value.attr, e.attr)
+        return None
 
     def taint_of(e):
         '''field name if expression e carries a raw keyword lexeme'''
         if is_source(e):
             return e.attr
+        if nested_source(e):
+            return nested_source(e)
         if isinstance(e, ast.Name) and e.id in tainted_vars:
             return tainted_vars[e.id]
         if isinstance(e, ast.Call) and dotted(e.func) in ('str', 'repr') and e.args:
@@ -305,6 +382,13 @@ def _scan(r, fn, nodevar, fields, qual):
                     sinks.append((kind, x, n))
         elif isinstance(n, ast.Subscript) and not (isinstance(n.value, ast.Name) and n.value.id == 'p'):
             sinks.append(('dictionary key', n.slice, n))
+        elif isinstance(n, ast.Call) and call_attr(n) in ('find_symbol', 'install_symbol'):
+            for kw in n.keywords:
+                if kw.arg == 'name':
+                    sinks.append(('symbol lookup', kw.value, n))
+            for a in n.args:
+                if not (isinstance(a, ast.Name) and a.id in (nodevar, 'self')):
+                    sinks.append(('symbol lookup', a, n))
         elif isinstance(n, ast.Call) and call_attr(n) == 'new':
             for kw in n.keywords:
                 sinks.append(('persisted attribute %s' % kw.arg, kw.value, n))
